@@ -82,6 +82,7 @@ type Engine struct {
 	allocsOf map[*types.TypeName]bool
 	elemObj  map[any]AV // element summaries per memory object
 	guarded  map[fieldKey]bool // the field is compared in some branch condition of analysed code
+	outcomeMemo map[outcomeKey][]AV
 }
 
 type callSite struct {
@@ -224,6 +225,7 @@ func (e *Engine) Run() {
 	for round := 0; round < 16; round++ {
 		e.Rounds = round + 1
 		e.changed = false
+		e.outcomeMemo = nil
 		for _, fn := range e.order {
 			e.evalFunc(e.fs[fn], round)
 		}
@@ -459,40 +461,7 @@ func (e *Engine) evalFunc(s *fstate, round int) {
 			}
 		}
 	}
-	blocks := fn.DomPreorder()
-	for iter := 0; iter < 12; iter++ {
-		stable := true
-		for _, b := range blocks {
-			for _, ins := range b.Instrs {
-				v, ok := ins.(ssa.Value)
-				if !ok || !isIntType(v.Type()) {
-					if ex, ok := ins.(*ssa.Extract); ok {
-						_ = ex
-					}
-					continue
-				}
-				nv := e.transfer(s, v, b)
-				old, had := s.vals[v]
-				if _, isPhi := v.(*ssa.Phi); isPhi && had {
-					s.visits[v]++
-					if s.visits[v] > 3 {
-						lo, hi, _, _, _ := e.typeRange(v.Type())
-						nv = Widen(old, nv, s.thr, lo, hi)
-					} else {
-						nv = Join(old, nv)
-					}
-				}
-				if !had || !Equal(old, nv) {
-					s.vals[v] = nv
-					stable = false
-					s.atMemo = map[atKey]AV{}
-				}
-			}
-		}
-		if stable {
-			break
-		}
-	}
+	e.iterate(s)
 	// publish summaries: returns, field stores, callee parameters, closure bindings
 	for _, b := range fn.Blocks {
 		for _, ins := range b.Instrs {
@@ -596,6 +565,46 @@ func (e *Engine) evalFunc(s *fstate, round int) {
 					}
 				}
 			}
+		}
+	}
+}
+
+
+// iterate: intraprocedural fixpoint of the value map of s (no publishing).
+func (e *Engine) iterate(s *fstate) {
+	fn := s.fn
+	blocks := fn.DomPreorder()
+	for iter := 0; iter < 12; iter++ {
+		stable := true
+		for _, b := range blocks {
+			for _, ins := range b.Instrs {
+				v, ok := ins.(ssa.Value)
+				if !ok || !isIntType(v.Type()) {
+					if ex, ok := ins.(*ssa.Extract); ok {
+						_ = ex
+					}
+					continue
+				}
+				nv := e.transfer(s, v, b)
+				old, had := s.vals[v]
+				if _, isPhi := v.(*ssa.Phi); isPhi && had {
+					s.visits[v]++
+					if s.visits[v] > 3 {
+						lo, hi, _, _, _ := e.typeRange(v.Type())
+						nv = Widen(old, nv, s.thr, lo, hi)
+					} else {
+						nv = Join(old, nv)
+					}
+				}
+				if !had || !Equal(old, nv) {
+					s.vals[v] = nv
+					stable = false
+					s.atMemo = map[atKey]AV{}
+				}
+			}
+		}
+		if stable {
+			break
 		}
 	}
 }
@@ -1112,8 +1121,7 @@ func rootFieldAddr(v ssa.Value) (*ssa.FieldAddr, bool) {
 func (e *Engine) storeContribution(s *fstate, st *ssa.Store) AV {
 	base := e.at(s, st.Val, st.Block(), 0)
 	fn := s.fn
-	ei := errIndex(fn)
-	if ei < 0 || base.IsBottom() {
+	if !hasFailConvention(fn) || base.IsBottom() {
 		return base
 	}
 	fa, ok := st.Addr.(*ssa.FieldAddr)
@@ -1177,7 +1185,7 @@ func (e *Engine) storeContribution(s *fstate, st *ssa.Store) AV {
 			continue
 		}
 		if ret, ok := x.Instrs[len(x.Instrs)-1].(*ssa.Return); ok {
-			if ei < len(ret.Results) && nonNilError(ret.Results[ei], x, 0) {
+			if isFailReturn(fn, ret, x) {
 				continue
 			}
 			refineAt(x, nil)
@@ -1422,9 +1430,8 @@ func (e *Engine) computeZeroDefaults() {
 							}
 						}
 					}
-					ei := errIndex(fn)
 					for f, ib := range initBlocks {
-						if ib[b] || !okReturnReachableAvoiding(b, ib, ei) {
+						if ib[b] || !okReturnReachableAvoiding(fn, b, ib) {
 							seenInit[fieldKey{n.Obj(), f}]++
 						}
 					}
@@ -1634,6 +1641,49 @@ func nonNilError(v ssa.Value, at *ssa.BasicBlock, depth int) bool {
 		}
 	}
 	return false
+}
+
+// isFailReturn: this return reports failure to the caller, so that what the function stored or
+// built does not survive it: a certainly non-nil error, or (for functions without an error result
+// whose last result is a bool, the comma-ok convention) a constant false accompanied by nothing but
+// zero values.
+func isFailReturn(fn *ssa.Function, ret *ssa.Return, b *ssa.BasicBlock) bool {
+	if ei := errIndex(fn); ei >= 0 {
+		return ei < len(ret.Results) && nonNilError(ret.Results[ei], b, 0)
+	}
+	n := len(ret.Results)
+	if n < 2 {
+		return false
+	}
+	if bt, ok := ret.Results[n-1].Type().Underlying().(*types.Basic); !ok || bt.Kind() != types.Bool {
+		return false
+	}
+	k, ok := ret.Results[n-1].(*ssa.Const)
+	if !ok || k.Value == nil || k.Value.String() != "false" {
+		return false
+	}
+	for _, r := range ret.Results[:n-1] {
+		c, ok := r.(*ssa.Const)
+		if !ok {
+			return false
+		}
+		if c.Value != nil && c.Value.String() != "0" && c.Value.String() != "false" && c.Value.String() != `""` {
+			return false
+		}
+	}
+	return true
+}
+
+func hasFailConvention(fn *ssa.Function) bool {
+	if errIndex(fn) >= 0 {
+		return true
+	}
+	res := fn.Signature.Results()
+	if res.Len() < 2 {
+		return false
+	}
+	bt, ok := res.At(res.Len() - 1).Type().Underlying().(*types.Basic)
+	return ok && bt.Kind() == types.Bool
 }
 
 func errIndex(fn *ssa.Function) int {
@@ -1847,7 +1897,7 @@ func (e *Engine) FieldGuarded(tn *types.TypeName, f int) bool { return e.guarded
 
 // okReturnReachableAvoiding: can a return that may carry a nil error be reached from block `from`
 // without passing through any block of `avoid`?
-func okReturnReachableAvoiding(from *ssa.BasicBlock, avoid map[*ssa.BasicBlock]bool, ei int) bool {
+func okReturnReachableAvoiding(fn *ssa.Function, from *ssa.BasicBlock, avoid map[*ssa.BasicBlock]bool) bool {
 	seen := map[*ssa.BasicBlock]bool{}
 	var walk func(b *ssa.BasicBlock) bool
 	walk = func(b *ssa.BasicBlock) bool {
@@ -1860,10 +1910,7 @@ func okReturnReachableAvoiding(from *ssa.BasicBlock, avoid map[*ssa.BasicBlock]b
 		}
 		if len(b.Instrs) > 0 {
 			if ret, ok := b.Instrs[len(b.Instrs)-1].(*ssa.Return); ok {
-				if ei >= 0 && ei < len(ret.Results) && nonNilError(ret.Results[ei], b, 0) {
-					return false
-				}
-				return true
+				return !isFailReturn(fn, ret, b)
 			}
 		}
 		for _, sc := range b.Succs {
@@ -1916,7 +1963,6 @@ func (e *Engine) FieldPostcondition(fn *ssa.Function, key string) (AV, bool) {
 	if len(loads) == 0 {
 		return AV{}, false
 	}
-	ei := errIndex(fn)
 	r := Bottom()
 	for _, b := range fn.Blocks {
 		if len(b.Instrs) == 0 {
@@ -1926,7 +1972,7 @@ func (e *Engine) FieldPostcondition(fn *ssa.Function, key string) (AV, bool) {
 		if !ok {
 			continue
 		}
-		if ei >= 0 && ei < len(ret.Results) && nonNilError(ret.Results[ei], b, 0) {
+		if isFailReturn(fn, ret, b) {
 			continue
 		}
 		v := e.rawSource(t)
